@@ -114,6 +114,56 @@ theorem iter_perm {R : Nat} (m : Map) (order : List Nat) (h : Inv R m)
     simp only [Raw.ents, hlo]
     exact List.Perm.append_right _ hp1
 
+/-- **`drain()` / `into_iter()` visit each stored entry exactly once** too: their order (old table
+    in cursor order first, then some enumeration of the main table) is a permutation of the contents. -/
+theorem drain_perm {R : Nat} (m : Map) (order : List Nat) (h : Inv R m)
+    (hok : Map.drainOrderOk m order = true) :
+    (order.filterMap (fun k => (m.find k).map (·.2))).Perm m.ents := by
+  unfold Map.drainOrderOk at hok
+  simp only [Bool.and_eq_true, decide_eq_true_eq, List.all_eq_true] at hok
+  obtain ⟨⟨⟨hold, hlen⟩, hnd⟩, hall⟩ := hok
+  -- the main part: `find` answers from the main table
+  have hmainpart : ∀ (part : List Nat), (∀ k ∈ part, (m.main.find? k).isSome = true) →
+      part.filterMap (fun k => (m.find k).map (·.2))
+        = part.filterMap (fun k => m.main.ents.find? (fun e => e.k == k)) := by
+    intro part hp
+    apply List.filterMap_congr
+    intro k hk
+    have := hp k hk
+    unfold Raw.find
+    unfold HB.find? at this ⊢
+    cases hf : m.main.ents.find? (fun e => e.k == k) with
+    | none => rw [hf] at this; cases this
+    | some x => simp
+  cases hlo : m.lo with
+  | none =>
+    simp only [hlo, List.length_nil, List.take_zero, List.drop_zero] at hold hlen hnd hall
+    rw [hmainpart order hall]
+    simp only [Raw.ents, hlo, List.append_nil]
+    exact filterMap_find_perm h.main_nodup hnd hlen hall
+  | some o =>
+    simp only [hlo] at hold hlen hnd hall
+    have hag := h.agree o hlo
+    rw [hag, List.take_length] at hold hlen hnd hall
+    have hsplit : order = order.take (o.ents.map (·.k)).length ++ order.drop (o.ents.map (·.k)).length :=
+      (List.take_append_drop _ _).symm
+    rw [hsplit, List.filterMap_append, hold, hmainpart _ hall]
+    have hold2 : (o.ents.map (·.k)).filterMap (fun k => (m.find k).map (·.2)) = o.ents := by
+      have : (o.ents.map (·.k)).filterMap (fun k => (m.find k).map (·.2))
+          = (keysOf o.ents).filterMap (fun k => o.ents.find? (fun e => e.k == k)) := by
+        apply List.filterMap_congr
+        intro k hk
+        have hnot : m.main.ents.find? (fun e => e.k == k) = none := by
+          rw [find_key_none]; intro hm; exact h.disjoint hlo hm hk
+        unfold Raw.find HB.find?
+        simp only [hnot, hlo]
+        cases o.ents.find? (fun e => e.k == k) <;> rfl
+      rw [this, filterMap_find_keys (h.old_nodup hlo)]
+    rw [hold2]
+    simp only [Raw.ents, hlo]
+    have hp1 := filterMap_find_perm h.main_nodup hnd hlen hall
+    exact (List.Perm.append_left _ hp1).trans List.perm_append_comm
+
 /-- exact length: the iterator yields `len()` items, so after `j` calls `len() - j` remain
     (`size_hint` / `len()` of the iterator), and nothing after that -/
 theorem iter_length {R : Nat} (m : Map) (order : List Nat) (h : Inv R m)
@@ -219,5 +269,37 @@ theorem into_iter_yields {R : Nat} (m : Map) (take : Nat) (o : Orc) (h : Inv R m
           exact (find_loc h hf).2.2
       simp only [OkOr]
       exact ⟨_, hmem, rfl, rfl⟩
+
+/-- `drain` pulled `take` times, then dropped: the yielded entries are a prefix of a permutation of
+    the contents — **each stored entry at most once, all of them if pulled to the end** — and every
+    object is either handed to the caller or dropped by the iterator's destructor, exactly once. -/
+theorem drain_exact {R : Nat} (m : Map) (take : Nat) (o : Orc) (h : Inv R m) :
+    OkOr (Map.drain m take false o) (fun r =>
+      ∃ all : List Entry, all.Perm m.ents ∧ r.2.ret = .ents (all.take take) ∧
+        r.2.returned = idsOf (all.take take) ∧ r.2.cost.dropped = idsOf (all.drop take) ∧ r.1.ents = []) := by
+  unfold Map.drain
+  cases hok : Map.drainOrderOk m o.calls with
+  | false => simp [OkOr]
+  | true =>
+    simp only [Bool.not_true, Bool.false_eq_true, if_false, overCount_false m h, OkOr]
+    refine ⟨_, drain_perm m o.calls h hok, rfl, rfl, ?_, by simp [Raw.ents, HB.clearNoDrop]⟩
+    cases hlo : m.lo with
+    | none => simp [idsOf]
+    | some ol => simp [Old.freeCost, h.agree ol hlo, idsOf]
+
+/-- the same for `into_iter` (the map is consumed: nothing stays stored) -/
+theorem into_iter_exact {R : Nat} (m : Map) (take : Nat) (o : Orc) (h : Inv R m) :
+    OkOr (Map.intoIter m take o) (fun out =>
+      ∃ all : List Entry, all.Perm m.ents ∧ out.ret = .ents (all.take take) ∧
+        out.returned = idsOf (all.take take) ∧ out.cost.dropped = idsOf (all.drop take)) := by
+  unfold Map.intoIter
+  cases hok : Map.drainOrderOk m o.calls with
+  | false => simp [OkOr]
+  | true =>
+    simp only [Bool.not_true, Bool.false_eq_true, if_false, overCount_false m h, OkOr]
+    refine ⟨_, drain_perm m o.calls h hok, rfl, rfl, ?_⟩
+    cases hlo : m.lo with
+    | none => simp [HB.freeCost, idsOf]
+    | some ol => simp [Old.freeCost, HB.freeCost, h.agree ol hlo, idsOf]
 
 end Griddle.C08
